@@ -127,6 +127,7 @@ ReportedOn(h, t, w) == h[t] # <<>> /\ Last(h[t]).k = "Started" /\ w \in SeqSet(L
 StateProps == <<
   <<"C01_OutcomeOnce", C01_OutcomeOnce>>, <<"C01_FinishAfterStart", C01_FinishAfterStart>>,
   <<"C01_FinishedRan", C01_FinishedRan>>, <<"C01_JobAgrees", C01_JobAgrees>>,
+  <<"C01_OutcomeAtRest", C01_OutcomeAtRest>>,
   <<"C01_TimeLimitStops", C01_TimeLimitStops>>, <<"C01_TimeLimitFails", C01_TimeLimitFails>>,
   <<"C02_Registry", C02_Registry>>, <<"C02_QuiescentOk", C02_QuiescentOk>>,
   <<"C02_ClosedJobsComplete", C02_ClosedJobsComplete>>,
@@ -165,7 +166,7 @@ BindState(st) ==
 V(name, e) == [p |-> name, run |-> e.run, i |-> e.i, a |-> e.a, loc |-> ""]
 
 \* a line of a run that is still alive and did not panic
-Step(e) ==
+Step(e, extra) ==
   LET nt == NewTaskInfo(e, tinfo)
       tinfo2 == nt @@ tinfo
       hist0 == Ext(hist, DOMAIN nt, <<>>)
@@ -268,7 +269,7 @@ Step(e) ==
   /\ cancelAck' = ack2 /\ wCancel' = {p \in wc2 : p[1] \in DOMAIN WkOf(e.st)} /\ gaveBack' = gb2
   /\ nCompleted' = ncomp2 /\ mustCrash' = must2 /\ mayCrash' = may2 /\ exceeded' = exc2
   /\ classes' = classes
-  /\ viol' = viol \cup {V(n, e) : n \in stepViol}
+  /\ viol' = viol \cup {V(n, e) : n \in stepViol} \cup extra
                \cup (LET sp == StateProps' IN {V(sp[k][1], e) : k \in {k \in DOMAIN sp : ~sp[k][2]}})
 
 Reset(e) ==
@@ -278,7 +279,8 @@ Reset(e) ==
   /\ wCancel' = {} /\ gaveBack' = {} /\ nCompleted' = Empty /\ mustCrash' = Empty /\ mayCrash' = Empty /\ exceeded' = {}
   /\ viol' = viol
 
-TraceNext ==
+\* extra: further (diagnostic) records to add for this line (module HQConform)
+TraceNextWith(extra) ==
   /\ l <= Len(Rec)
   /\ l' = l + 1
   /\ nstates' = nstates + 1
@@ -291,7 +293,9 @@ TraceNext ==
        ELSE IF e.pan = 1 THEN
          /\ alive' = FALSE /\ run' = run /\ UNCHANGED vars
          /\ viol' = viol \cup {[V("C09_NoPanic", e) EXCEPT !.loc = e.panic.loc]}
-       ELSE /\ run' = run /\ alive' = alive /\ Step(e)
+       ELSE /\ run' = run /\ alive' = alive /\ Step(e, extra)
+
+TraceNext == TraceNextWith({})
 
 TraceSpec == TraceInit /\ [][TraceNext]_tvars
 
